@@ -143,6 +143,35 @@ pub fn check_rule(c: &RuleCase, st: &mut Stats) -> Result<(), String> {
                 // non-trivial: within 1 s of S/E of a nearby year, a straddling period near New Year, odd times, tie rule
                 let y = cal::civil_from_unix(u as i128).y;
                 let near_edge = (y - 1..=y + 1).any(|yy| (u - r.s(yy)).abs() <= 1 || (u - r.e(yy)).abs() <= 1);
+                // the value-building entry points reach the same rule evaluation: the type they report for the instant u + fraction
+                // (fractions count toward the future: still second u) is the rule's half in effect at u, and the fields are its clock
+                if near_edge || u % 8 == 0 {
+                    let zr = match &zone_t {
+                        Some(zt) if u >= u0 => *zt,
+                        _ => zone,
+                    };
+                    let ns = [1u32, 500_000_000, 999_999_999][(u.rem_euclid(3)) as usize];
+                    let a = tz::DateTime::from_timespec(u, ns, zr);
+                    let b = tz::DateTime::from_total_nanoseconds(u as i128 * 1_000_000_000 + ns as i128, zr);
+                    let p = tz::UtcDateTime::from_timespec(u, ns).and_then(|x| x.project(zr));
+                    for (name, d) in [("DateTime::from_timespec", a), ("DateTime::from_total_nanoseconds", b), ("UtcDateTime::project", p)] {
+                        let local = u as i128 + want.off as i128;
+                        match d {
+                            Ok(d) => {
+                                let cv = cal::civil_from_unix(local);
+                                if !want.same_as(d.local_time_type()) || d.unix_time() != u || d.nanoseconds() != ns || (d.year() as i64, d.month() as i64, d.month_day() as i64, d.hour() as i64, d.minute() as i64, d.second() as i64) != (cv.y, cv.mo, cv.d, cv.h, cv.mi, cv.s) {
+                                    return Err(format!("rule {} (class {}): {name} at u={u} ns={ns} gives {d} with type {:?} (unix {}), the rule prescribes {want:?} there", r.spell(), class.name(), d.local_time_type(), d.unix_time()));
+                                }
+                            }
+                            Err(e) => {
+                                if local >= cal::min_unix() as i128 && local <= cal::max_unix() as i128 {
+                                    return Err(format!("rule {}: {name} at u={u} ns={ns} failed with {e:?} although the lookup succeeds and the local time is representable", r.spell()));
+                                }
+                            }
+                        }
+                    }
+                    st.class("value_entry_points_compared");
+                }
                 let ny = cal::days_from_civil(y, 1, 1) * 86400;
                 let ny2 = cal::days_from_civil(y + 1, 1, 1) * 86400;
                 let near_ny = ((u - ny).abs() <= 3 * 86400 && orule::is_dst(r, class, ny) ) || ((u - ny2).abs() <= 3 * 86400 && orule::is_dst(r, class, ny2));
